@@ -6,6 +6,7 @@ use crate::engine::*;
 use crate::inputs::*;
 use crate::refs::cksum;
 use crate::refs::wrap as r3;
+use crate::refs::wrap::GzFields;
 use crate::zfam;
 use crate::zgen::*;
 
@@ -214,8 +215,66 @@ fn histories(ctx: &mut Ctx) {
     }
 }
 
+/// gzip headers with FHCRC and long fields (the header CRC is continued over >= 64-byte pieces from a non-initial
+/// value) with the input placed at each of the 64 addresses modulo 64: the intact member must be accepted and every
+/// other value of the two stored CRC bytes refused, whatever the alignment and whether the header comes in one
+/// call or field by field
+fn header_crc_alignments(ctx: &mut Ctx) {
+    let body = text(3, 50);
+    let shapes: Vec<(&str, GzFields)> = vec![
+        ("name(100)", GzFields { os: 3, mtime: 0xfedc_ba98, name: Some((0..100).map(|i| b'a' + (i % 26) as u8).collect()), hcrc: true, ..Default::default() }),
+        ("extra(200)", GzFields { os: 3, mtime: 0x8000_0001, extra: Some(lcg_bytes(5, 200)), hcrc: true, ..Default::default() }),
+        ("extra(70)+name(65)+comment(300)", GzFields { text: true, os: 255, mtime: 0xffff_ffff, extra: Some(lcg_bytes(6, 70)), name: Some(vec![b'n'; 65]), comment: Some((0..300).map(|i| b'A' + (i % 50) as u8).collect()), hcrc: true, ..Default::default() }),
+    ];
+    for (sname, gz) in &shapes {
+        let denv = Env::new();
+        let cfg = DCfg { level: 6, strategy: 0, wbits: 15, mem_level: 8, wrap: Wrap::Gzip };
+        let z = run_deflate::<Ng>(&cfg, &body, &DSched::one_shot(), &denv, &DExtra { gz: Some(gz), ..Default::default() }, None).expect("reference deflate").out;
+        let hl = gz.write().len();
+        for mis in 0..64usize {
+            ctx.case(
+                "header-crc-alignment",
+                || format!("gzip member with FHCRC and {sname} ({} bytes, header {hl}) with the input at address = {mis} mod 64: intact, and the stored header CRC replaced by other values", z.len()),
+                |c| {
+                    let mut env = Env::new();
+                    env.at_end = false;
+                    env.misalign = mis;
+                    let ex = IExtra { expect_out: body.len(), ..Default::default() };
+                    for sch in [ISched::one_shot(), ISched { steps: vec![IStep { n: 10, room: AMPLE, flush: Z_NO_FLUSH }], tail_in: AMPLE, tail_room: AMPLE, tail_flush: Z_NO_FLUSH }] {
+                        c.exec();
+                        let t = run_inflate::<Rs>(31, &z, &sch, &env, &ex, None)?;
+                        if t.fin != Fin::StreamEnd || t.out != body {
+                            return Err(format!("the intact member is not accepted: {:?} after {} bytes (schedule [{}])", t.fin, t.consumed, sch.desc()));
+                        }
+                        // every other low byte, and every other high byte, of the stored header CRC
+                        for pos in [hl - 2, hl - 1] {
+                            for x in 0..=255u8 {
+                                if x == z[pos] {
+                                    continue;
+                                }
+                                let mut b = z.clone();
+                                b[pos] = x;
+                                c.exec();
+                                let t = run_inflate::<Rs>(31, &b, &sch, &env, &ex, None)?;
+                                if t.fin == Fin::StreamEnd {
+                                    return Err(format!("Z_STREAM_END although the stored header CRC byte at {pos} is {x:#04x} instead of {:#04x} (schedule [{}])", z[pos], sch.desc()));
+                                }
+                            }
+                        }
+                    }
+                    c.outcome(mis as u64);
+                    c.nontrivial();
+                    c.validated();
+                    Ok(())
+                },
+            );
+        }
+    }
+}
+
 pub fn run(ctx: &mut Ctx) {
     histories(ctx);
+    header_crc_alignments(ctx);
     let quick = ctx.quick();
     let env = Env::new();
     let tg = targets(quick);
